@@ -135,12 +135,26 @@ def run_battery(prop, mod, base_keys):
     """apply every kept seeded change of this property (seeded/<prop>-mN/patch.diff, detected_by_check == yes) to a scratch copy
     of /repo, re-extract, re-run the property's rules: the run must report a violation key that the unchanged tree does not"""
     import glob, shutil, subprocess, tempfile
-    seeds = sorted(glob.glob(os.path.join(VERIF, "seeded", prop + "-*")))
+    # a seed belongs to the battery of the property it was written against, unless its meta names the check that catches it
+    # (`battery_property`: a change seeded against one property whose breakage is decided by another property's rule)
+    seeds = []
+    for sd in sorted(glob.glob(os.path.join(VERIF, "seeded", "C*-*"))):
+        try:
+            meta = json.load(open(os.path.join(sd, "meta.json")))
+        except (OSError, ValueError):
+            continue
+        if meta.get("battery_property", meta.get("property")) == prop:
+            seeds.append(sd)
     out = {"mutants_run": 0, "reported": [], "missed": [], "skipped": []}
     if not seeds:
         return out
     scratch_root = os.path.join(tempfile.gettempdir(), "verif-scratch")
     scratch = os.path.join(scratch_root, "repo")
+    # one battery at a time: the scratch copy (and its warm cargo target dir) is shared by all properties
+    import fcntl
+    os.makedirs(extract.CACHE, exist_ok=True)
+    block = open(os.path.join(extract.CACHE, "battery.lock"), "w")
+    fcntl.flock(block, fcntl.LOCK_EX)
     try:
         for sd in seeds:
             meta = json.load(open(os.path.join(sd, "meta.json")))
@@ -185,6 +199,8 @@ def run_battery(prop, mod, base_keys):
         import hashlib as _h
         tgt = os.path.join(extract.CACHE, "target-" + _h.sha256(scratch.encode()).hexdigest()[:8])
         shutil.rmtree(tgt, ignore_errors=True)
+        fcntl.flock(block, fcntl.LOCK_UN)
+        block.close()
     return out
 
 
@@ -323,8 +339,10 @@ def run_property(prop, module_name, argv):
         "wall_s": round(wall, 2),
         "violations": len(new),
     }
-    os.makedirs(os.path.join(VERIF, "evidence"), exist_ok=True)
-    with open(os.path.join(VERIF, "evidence", "%s.json" % prop), "w") as f:
+    # tools/try_seed.sh runs the check on a deliberately broken /repo: its evidence must not replace the real one
+    evdir = os.environ.get("VERIF_EVIDENCE_DIR") or os.path.join(VERIF, "evidence")
+    os.makedirs(evdir, exist_ok=True)
+    with open(os.path.join(evdir, "%s.json" % prop), "w") as f:
         json.dump(ev, f, indent=1)
     print("%s: %d obligation(s), %d discharged, %d known finding(s), %d new violation(s), %d bodies analysed, "
           "selftest %d case(s), %.1fs" % (prop, ctx.obligations, ctx.discharged, len(seen_known), len(new),
